@@ -21,6 +21,16 @@ from yldprolog.compiler import compile_prolog_from_string  # noqa
 SHAPES = ['a', 'b', '7', "'a'", 'X', 'Y', 'f(X)', 'f(Y)', 'f(a)', 'g(X,Y)', 'g(X,X)', 'g(a,X)', 'g(Y,f(Y))', '[X]', '[a|X]', '[X|Y]', '[]',
           'f(f(X))', 'g(f(X),X)']
 SRC = "eq(A, B) :- A = B.\nne(A, B) :- A \\= B.\n"
+# the same goals in other clause contexts: (predicate, clause, first argument wrapped in w/1 ?, expected: same as / opposite of unify)
+CONTEXTS = [('eqn', 'eqn(w(A), B) :- A = B.', True, True),                  # left side occurs only nested in a head argument
+            ('eqc', 'eqc(w(A), B) :- A = B, true.', True, True),            # ... as a non-last goal of a conjunction
+            ('eqr', 'eqr(A, w(B)) :- true, A = B.', False, True),           # right side nested, = as last goal
+            ('eqv', 'eqv(A, B) :- X = A, X = B.', False, True),             # through a clause variable that is new in the first goal
+            ('eqd', 'eqd(A, B) :- ( A = B ; fail ).', False, True),
+            ('eql', 'eql([A|_], B) :- A = B, true.', 'list', True),
+            ('nen', 'nen(w(A), B) :- A \\= B, true.', True, False),
+            ('nev', 'nev(A, B) :- X = A, X \\= B.', False, False)]
+SRC += '\n'.join(c[1] for c in CONTEXTS) + '\n'
 
 
 def build(yp, shape, env):
@@ -91,6 +101,21 @@ def run(sc):
             probs.append('%s on (%s, %s): %s answer(s), unify has %d' % (what, sc['t1'], sc['t2'], n, nu))
         if any(v._is_bound for v in env.values()):
             probs.append('%s on (%s, %s): a variable is still bound afterwards' % (what, sc['t1'], sc['t2']))
+    for pred, clause, wrap, same in CONTEXTS:
+        def mk(a, b, pred=pred, wrap=wrap):
+            if wrap == 'list':
+                a = yp.listpair(a, yp.variable())
+            elif pred == 'eqr':
+                b = yp.functor('w', [b])
+            elif wrap:
+                a = yp.functor('w', [a])
+            return yp.query(pred, [a, b])
+        n, env = count(mk)
+        want = nu if same else 1 - nu
+        if n != want:
+            probs.append('compiled `%s` on (%s, %s): %s answer(s), unify has %d' % (clause, sc['t1'], sc['t2'], n, nu))
+        if any(v._is_bound for v in env.values()):
+            probs.append('compiled `%s` on (%s, %s): a variable is still bound afterwards' % (clause, sc['t1'], sc['t2']))
     return not probs, '; '.join(probs) or 'ok'
 
 
@@ -120,7 +145,8 @@ def main():
     print(json.dumps(dict(evaluations=n, distinct_nontrivial=len(nontriv), failures=fails, failure_count=len(fails), samples=scs[:3],
                           exhaustive=count >= len(SHAPES) ** 2,
                           rule='all ordered pairs of %d term shapes (incl. pairs whose unifier is cyclic): answers of =, \\=, compiled = and \\= '
-                               'counted against the engine\'s unify; non-trivial = the two shapes differ' % len(SHAPES))))
+                               '(in the clause contexts eq, ne, %s) counted against the engine\'s unify; non-trivial = the two shapes differ'
+                               % (len(SHAPES), ', '.join(c[0] for c in CONTEXTS)))))
 
 
 if __name__ == '__main__':
